@@ -253,22 +253,52 @@ func registerFSStubs(ex *Exec) {
 			})
 		})
 	}
-	S["io.ReadAll"] = func(ex *Exec, st *State, site ssa.Instruction, fn *ssa.Function, args []Value) Value {
-		return ex.withChoice(st, args[0], func(st *State, rv Value) Value {
-			iv, ok := rv.(*IfaceV)
-			if !ok {
-				return &TupleV{E: []Value{&SliceV{Obj: 0, Len: bv64(0)}, ex.fsErr(st, false)}}
+	S["io.LimitReader"] = func(ex *Exec, st *State, site ssa.Instruction, fn *ssa.Function, args []Value) Value {
+		lr := ex.newOpaque("limitReader")
+		lr.Data["r"] = args[0]
+		lr.Data["n"] = args[1]
+		return &IfaceV{T: nil, V: lr}
+	}
+	var readAllOf func(ex *Exec, st *State, rv Value, limit *smt.Term) Value
+	readAllOf = func(ex *Exec, st *State, rv Value, limit *smt.Term) Value {
+		fail := func() Value {
+			return &TupleV{E: []Value{&SliceV{Obj: 0, Len: bv64(0)}, ex.fsErr(st, false)}}
+		}
+		return ex.withChoice(st, rv, func(st *State, rv Value) Value {
+			var inner Value = rv
+			if iv, ok := rv.(*IfaceV); ok {
+				inner = iv.V
 			}
-			return ex.withChoice(st, iv.V, func(st *State, fv Value) Value {
+			return ex.withChoice(st, inner, func(st *State, fv Value) Value {
 				f, ok := fv.(*Opaque)
 				if !ok {
-					return &TupleV{E: []Value{&SliceV{Obj: 0, Len: bv64(0)}, ex.fsErr(st, false)}}
+					return fail()
 				}
-				p, _ := f.Data["path"].(*StrV).Concrete()
-				_, n := ex.fsNodeOf(st, p)
-				return &TupleV{E: []Value{ex.bytesOfNode(st, n), Nil}}
+				if f.Tag == "limitReader" {
+					// at most n bytes of the underlying reader
+					n, _ := f.Data["n"].(*smt.Term)
+					if limit != nil {
+						n = smt.Ite(smt.Slt(limit, n), limit, n)
+					}
+					return readAllOf(ex, st, f.Data["r"], n)
+				}
+				ps, ok := f.Data["path"].(*StrV)
+				if !ok {
+					panic(unsupported("io.ReadAll of a reader that is not a file of the model"))
+				}
+				p, _ := ps.Concrete()
+				_, nd := ex.fsNodeOf(st, p)
+				b := ex.bytesOfNode(st, nd)
+				if limit != nil {
+					lim := smt.Ite(smt.Slt(limit, bv64(0)), bv64(0), limit)
+					b = &SliceV{Obj: b.Obj, Off: b.Off, Len: smt.Ite(smt.Ult(lim, b.Len), lim, b.Len), Cap: b.Cap, MaxLen: b.MaxLen}
+				}
+				return &TupleV{E: []Value{b, Nil}}
 			})
 		})
+	}
+	S["io.ReadAll"] = func(ex *Exec, st *State, site ssa.Instruction, fn *ssa.Function, args []Value) Value {
+		return readAllOf(ex, st, args[0], nil)
 	}
 	S["os.ReadFile"] = func(ex *Exec, st *State, site ssa.Instruction, fn *ssa.Function, args []Value) Value {
 		if ps, ok := args[0].(*StrV).Concrete(); ok && ex.fs != nil {
